@@ -504,6 +504,9 @@ class ArmiObject(metaclass=CompositeModelType):
         """
         self.p = other.p.__class__()
         for p, val in other.p.items():
+            if p == "serialNum":
+                # identifies the object, it is not a value to take over
+                continue
             self.p[p] = val
 
     def updateParamsFrom(self, new):
@@ -516,6 +519,9 @@ class ArmiObject(metaclass=CompositeModelType):
             The object to copy params from
         """
         for paramName, val in new.p.items():
+            if paramName == "serialNum":
+                # identifies the object, it is not a value to take over
+                continue
             self.p[paramName] = val
 
     def iterChildren(
